@@ -3,6 +3,8 @@ arrays through the real value heuristics and the real backtrack, against a refer
 part of C07, and C16 (interpreted mode as a bounds-checking monitor)."""
 from __future__ import annotations
 
+import os
+
 from collections import Counter
 from typing import Optional
 
@@ -19,6 +21,18 @@ SIZES = [2, 3, 4, 1, 5, 6, 7]
 
 
 def run(ch: Choices, focus: str = "C09", params: Optional[dict] = None) -> dict:
+    # the allocator's contents are one more seeded choice of the run (seams.dirty_allocator)
+    if os.environ.get("NUMBA_DISABLE_JIT"):
+        pat = seams.draw_pattern(ch)
+        with seams.dirty_allocator(pat):
+            out = _run(ch, focus, params)
+        if pat is not None:
+            out["faults"]["dirty-allocator"] += 1
+        return out
+    return _run(ch, focus, params)
+
+
+def _run(ch: Choices, focus: str = "C09", params: Optional[dict] = None) -> dict:
     seams.install()
     CLOCK.install()
     import nucs.heuristics.heuristics as H  # noqa
